@@ -191,7 +191,7 @@ def run_case(rec, k):
     fam = c["fam"]
     A = osyris.Array
     lu = names["l"]
-    if fam in ("units", "dtypes", "kinds", "shapes", "logic"):
+    if fam in ("units", "dtypes", "kinds", "shapes", "logic", "inplace"):
         ru = names["r"] if c["rk"] in ("arr", "qty") else "1"       # numbers and plain ndarrays are dimensionless
         lvals, larr = values_for(c["ldt"], c["ls"], k)
         rvals, rarr = values_for(c["rdt"] if c["rk"] in ("arr", "nd0", "nd1", "qty") else ("i8" if c["rk"] == "int" else "f8"), c["rs"], k + 1, nonzero=True)
@@ -238,11 +238,22 @@ def run_case(rec, k):
             b = rarr * osyris.units(UNITSTR[ru])
         sa, sb = snapshot(a), snapshot(b)
         try:
-            res = BIN[c["op"]](a, b)
+            if fam == "inplace":
+                import operator
+                res = {"add": operator.iadd, "sub": operator.isub, "mul": operator.imul, "div": operator.itruediv}[c["op"]](a, b)
+            else:
+                res = BIN[c["op"]](a, b)
             raised = None
         except Exception as e:
             raised = e
-        if not (same_snapshot(sa, snapshot(a)) and same_snapshot(sb, snapshot(b))):
+        if fam == "inplace":
+            if not same_snapshot(sb, snapshot(b)):
+                return "mismatch", "x op= y modified y", {}
+            if raised is not None and not same_snapshot(sa, snapshot(a)):
+                return "mismatch", "a refused x op= y modified x", {}
+            if raised is None and res is not a:
+                return "mismatch", "x op= y did not keep the object x", {}
+        elif not (same_snapshot(sa, snapshot(a)) and same_snapshot(sb, snapshot(b))):
             return "mismatch", "an operand was modified by the operation", {}
         if o["raises"]:
             if raised is None:
